@@ -3,8 +3,9 @@
 TRUSTED_BASE = [
     "Lean 4.33.0 kernel (re-checked by leanchecker in the thorough tier); axioms allowed: propext, Classical.choice, Quot.sound; no native_decide, bv_decide, sorry, user axioms",
     "the hand-written Lean model (lean/SMD/Model) is modelled, not verified: its tie to /repo is the correspondence harness (generators, VX1 printer in Go, VX1 parser/printer in Lean, canonicalisation of Go map order, the line diff)",
-    "external code outside the model: Go runtime, sort, reflect, encoding/json, jsoniter, goyaml",
-    "readings R1-R9 of natural-language clauses recorded in DESIGN.md section 6.0",
+    "factgen (harness/cmd/factgen) is trusted to report every range over a map-typed expression, every selector access to the listed shared fields with its guard context (incl. locks inherited by unexported helpers) and every CopyInto call site",
+    "external code outside the model: Go runtime and memory model, sync, sort, reflect, encoding/json (modelled as jsonV for the C18 theorem), strconv (float32 shortest decimal), encoding/base64, jsoniter, goyaml",
+    "readings R1-R13 of natural-language clauses recorded in DESIGN.md section 6",
 ]
 
 # op name -> properties for which a model/implementation difference on that op is a broken tie
